@@ -27,6 +27,8 @@ FAMILIES = ["daily", "billing", "hourly", "hourly_solar", "caltrack", "hourly_sa
 # hourly_satgap: the hourly family fitted on a baseline with a 14-hour outage on every Saturday of February: every (month, weekday)
 # combination is present and metered and nothing is disqualified, but those four days fall below min_daily_training_hours
 SETS = [("week", "2022-07-04", 7), ("dst_month", "2022-03-01", 31), ("year", "2022-01-01", 365), ("feb", "2022-02-01", 28)]
+# thorough: a 35-day set starting in every calendar month (every month boundary, both DST changes)
+SETS += [(f"m{m:02d}", f"2022-{m:02d}-10", 35) for m in range(1, 13)]
 
 
 def alterations(n, family):
@@ -54,6 +56,10 @@ def alterations(n, family):
         ("first_half_nan", lambda v: np.where(np.arange(n) >= n // 2, v, np.nan)),
     ]
     out += [(f"nan_run_{r}", nan_run(r)) for r in runs if r < n]
+    if n >= 4:
+        # blank stretches at the END of the period (ending inside a day for the hourly families) and at its very first / last value
+        out += [("last_quarter_nan", lambda v: np.where(np.arange(n) < n - max(1, n // 4), v, np.nan)),
+                ("first_and_last_nan", lambda v: np.where((np.arange(n) == 0) | (np.arange(n) == n - 1), np.nan, v))]
     out += [
         ("all_nan", lambda v: np.full(n, np.nan)),
         ("absent", lambda v: None),
@@ -179,6 +185,12 @@ def run_case(case):
     variant = case.get("variant", "plain")
     sname = sname if variant == "plain" else f"{sname}/{variant}"
     model = fitted(family)
+    if case.get("model") == "loaded":
+        # the model as it comes back from storage (it has never seen its baseline's usage in this process)
+        if ("loaded", family) not in _FIT:
+            _FIT[("loaded", family)] = type(model).from_json(model.to_json())
+        model = _FIT[("loaded", family)]
+        sname += "/loaded"
     family_pred = "hourly" if family == "hourly_satgap" else family
     viol = []
     key0 = {"family": family}
@@ -252,6 +264,12 @@ def cases(tier):
     out = []
     for f in FAMILIES:
         for sname, _, _ in SETS:
+            if sname.startswith("m") and sname[1:].isdigit():
+                if tier == "thorough" and f != "hourly_satgap":
+                    out.append({"family": f, "set": sname})
+                    if sname in ("m03", "m10"):
+                        out.append({"family": f, "set": sname, "model": "loaded"})
+                continue
             if tier == "quick" and f == "caltrack" and sname == "year":
                 continue
             if sname == "feb" and f != "hourly_satgap":
@@ -261,6 +279,8 @@ def cases(tier):
             if f in ("daily", "hourly") and sname == "dst_month":
                 out.append({"family": f, "set": sname, "variant": "dup_rows"})
             out.append({"family": f, "set": sname})
+            if sname == "week" and f != "hourly_satgap":
+                out.append({"family": f, "set": sname, "model": "loaded"})
             if f in ("hourly", "hourly_solar") and sname != "year":
                 out.append({"family": f, "set": sname, "variant": "weather_gaps"})
             if f == "daily" and sname != "year":
@@ -277,7 +297,7 @@ def run(tier, seed):
         [ex],
         rule="one case = (family's fitted model, reporting set); inside it every alteration of the observed column {x0.5, x7, reversed, "
         "shuffled, every 2nd NaN, first half NaN, NaN runs, all NaN, absent, all zero, negative, constant} is run and compared with the "
-        "identity run; behaviour = per alteration the number of commonly predicted rows",
+        "identity run (plus a trailing blank quarter and blank first/last values); behaviour = per alteration the number of commonly predicted rows",
     )
     cov["rows_compared"] = ex.stats.get("rows_compared", 0)
     cov["paired_runs"] = ex.stats.get("paired_runs", 0)
